@@ -13,7 +13,11 @@ Record auth_steps := {
   as_stale : list N;     (* 1 !exists->false 2 re-read lock 3 pid!=expected->false 4 rename lock 5 read meta 6 meta.pid==expected 7 rename meta 8 rm lock tombstone 9 rm meta tombstone 10/11 remove_file(lock/meta path) *)
   as_corrupt : list N;   (* 1 !exists->false 2 meta exists? 3 read meta 4 Dead => proceed 5 else false 6 rename lock 7 rm tombstone 8 remove_file(lock path) *)
   as_server : list N;    (* 1 try_acquire 2 read meta 3 ping 4 if reachable 5 read lock 6 liveness 7 if Dead && !reachable 8 stale cleanup 9 invalid-since 10 if invalid > 1 s 11 corrupt cleanup *)
-  as_client : list N     (* 1 read meta 2 ping 3 liveness(meta) 4 if Dead 5 stale cleanup 6 if lock exists 7 read lock 8 liveness(lock) 9 invalid-since 10 if invalid > 1 s 11 corrupt cleanup 12 spawn 13 try_acquire 14 (meta branch) if lock.json exists *)
+  as_client : list N     (* 1 read meta 2 ping 3 liveness(meta) 4 if Dead 5 stale cleanup 6 if lock exists 7 read lock 8 liveness(lock) 9 invalid-since 10 if invalid > 1 s 11 corrupt cleanup 12 spawn 13 try_acquire 14 (meta branch) if lock.json exists *);
+  as_serve : list N;     (* serve: 1 recovery loop (acquire) 2 bind 3 write_meta 4 select! 5 shutdown_tx.send 6 drain timeout 7 abort 8 ANY explicit release / move of the guard (drop(lock), forget, `let _ = lock`, move closure) *)
+  as_lock_err : list N;  (* bytes: static prefix of the error text read_authority_lock_record produces for unparsable JSON *)
+  as_server_pat : list N;(* bytes: the literal the server loop looks for (`lock_err.contains(..)`) to decide "corrupt lock" *)
+  as_client_pat : list N (* bytes: the literal the client loop looks for *)
 }.
 
 Definition exp_acquire : list N := [1; 4; 5].
@@ -21,6 +25,8 @@ Definition exp_drop : list N := [1; 2].
 Definition exp_meta : list N := [1; 2; 3].
 Definition exp_stale : list N := [1; 2; 3; 4; 5; 6; 7; 9; 8].
 Definition exp_corrupt : list N := [1; 2; 3; 4; 5; 6; 7].
+(* the guard lives from the recovery loop to the END of serve (after the drain): no explicit release anywhere *)
+Definition exp_serve : list N := [1; 2; 3; 4; 5; 6; 7].
 Definition exp_server : list N := [1; 2; 3; 4; 5; 6; 7; 8; 9; 10; 11].
 Definition exp_client : list N := [1; 2; 3; 4; 14; 5; 12; 6; 7; 8; 4; 5; 9; 10; 11; 12].
 
@@ -39,6 +45,20 @@ Definition pc_of_server (c : N) : N :=
    (LockExistsM = false) | if lock exists (LockExists), read lock, liveness + if Dead (Live), stale cleanup, invalid-since
    + if > 1 s (decided at RdLock), corrupt cleanup, spawn (LockExists = false) *)
 Definition client_pcs : list N := [8; 12; 24; 24; 25; 13; 25; 10; 9; 11; 11; 13; 9; 9; 18; 10].
+
+Fixpoint prefixb (p l : list N) : bool :=
+  match p, l with
+  | [], _ => true
+  | a :: p', b :: l' => (a =? b) && prefixb p' l'
+  | _ :: _, [] => false
+  end.
+Fixpoint subb (p l : list N) : bool :=
+  prefixb p l || match l with [] => false | _ :: l' => subb p l' end.
+(* the model's step "the loop read a half-written lock (RLock (LHalf _)) => corrupt cleanup after the grace period" assumes
+   that both loops RECOGNISE the reader's error: they decide by the error TEXT *)
+Definition loops_recognise_corrupt (g : auth_steps) : bool :=
+  negb (N.of_nat (length (as_server_pat g)) =? 0) && negb (N.of_nat (length (as_client_pat g)) =? 0)
+  && subb (as_server_pat g) (as_lock_err g) && subb (as_client_pat g) (as_lock_err g).
 
 Fixpoint dedup (l : list N) : list N :=
   match l with
@@ -67,7 +87,8 @@ Definition auth_steps_wf (g : auth_steps) : bool :=
   (* (a) the source has the expected step order *)
   lN_eqb (as_acquire g) exp_acquire && lN_eqb (as_drop g) exp_drop && lN_eqb (as_meta g) exp_meta
   && lN_eqb (as_stale g) exp_stale && lN_eqb (as_corrupt g) exp_corrupt
-  && lN_eqb (as_server g) exp_server && lN_eqb (as_client g) exp_client
+  && lN_eqb (as_server g) exp_server && lN_eqb (as_client g) exp_client && lN_eqb (as_serve g) exp_serve
+  && loops_recognise_corrupt g
   (* (b) ... which is the order the model runs *)
   && lN_eqb (dedup (map pc_of_acquire (as_acquire g))) (script_trace 2 LAbsent MAbsent [CAcquire])
   && lN_eqb ([1; 2] ++ dedup (map pc_of_drop (as_drop g))) (script_trace 4 LAbsent MAbsent [CAcquire; CDrop])
